@@ -162,7 +162,7 @@ func ruleChainLoad(c *Ctx, rule string) {
 			if in == ssa.Instruction(lk.call) {
 				callStates[K]++
 				callee := ex.Canon(st, lk.call.Call.Value).S
-				re := regexp.MustCompile(`^lookup@(?:[\w$]+·)?t\d+\(` + reQ(modPath) + `/plugins\.RegisteredPlugins,\$0\.Server` + K + `\.Plugins\[(\(φ(?:[\w$]+·)?t\d+ \+ 1\))\]\.Name\)#0\.Setup` + K + `$`)
+				re := regexp.MustCompile(`^lookup@(?:[\w$]+·)?t\d+\(` + reQ(modPath) + `/plugins\.RegisteredPlugins,\$0\.Server` + K + `\.Plugins\[(` + idxRe + `)\]\.Name\)#0\.Setup` + K + `$`)
 				m := re.FindStringSubmatch(callee)
 				if m == nil {
 					addp(K, "setup function is not RegisteredPlugins[conf.Server"+K+".Plugins[i].Name].Setup"+K+": "+shortName(callee))
@@ -262,7 +262,7 @@ func ruleChainLoad(c *Ctx, rule string) {
 		if !ok || len(ret.Results) != 3 {
 			return
 		}
-		if isNilConst(ex.Resolve(st, ret.Results[2])) {
+		if isNilConst(ex.ResolveDeep(st, ret.Results[2])) {
 			nSucc++
 			// success: nothing of the current iteration may be pending
 			for _, lk := range loops {
@@ -396,10 +396,10 @@ func ruleParseOrder(c *Ctx, rule string) {
 			return
 		}
 		// the ranged collection is the parameter, the item map is cast.ToStringMap(list[i]) with exactly one key
-		if v, _ := histEq(st, regexp.MustCompile(`^len\(github\.com/spf13/cast\.ToStringMap(@(?:[\w$]+·)?t\d+)?\(\$0\[\(φ(?:[\w$]+·)?t\d+ \+ 1\)\]\)\)$`), "1"); v != 1 {
+		if v, _ := histEq(st, regexp.MustCompile(`^len\(github\.com/spf13/cast\.ToStringMap(@(?:[\w$]+·)?t\d+)?\(\$0\[` + idxRe + `\]\)\)$`), "1"); v != 1 {
 			addp("item appended without len(item) == 1 being established")
 		}
-		if v, _ := histFact(st, "nil", regexp.MustCompile(`^github\.com/spf13/cast\.ToStringMap(@(?:[\w$]+·)?t\d+)?\(\$0\[\(φ(?:[\w$]+·)?t\d+ \+ 1\)\]\)$`)); v != 0 {
+		if v, _ := histFact(st, "nil", regexp.MustCompile(`^github\.com/spf13/cast\.ToStringMap(@(?:[\w$]+·)?t\d+)?\(\$0\[` + idxRe + `\]\)$`)); v != 0 {
 			addp("item appended without the string-map conversion being checked non-nil")
 		}
 		if ph, ok := app.Call.Args[0].(*ssa.Phi); !ok || ph.Block().Index != hdr {
